@@ -191,6 +191,14 @@ def tt_programs(tier, raising_bias=False):
                 p = make_program(children, HOST_TAILS[tail], ENVS[env])
                 p["label"] = f"children={combo} tail={tail} env={env}"
                 progs.append(p)
+    # a sibling that reads the first child's handle the moment handle.wait() returns
+    for first in ("ret", "cps", "wait", "wait_raise", "cp_raise", "shield_cleanup",
+                  "swallow_block", "cleanup_raise"):
+        for env in ("gate+cancel_group", "gate+hcancel", "gate"):
+            children = [child_behaviours(0)[first], [["join", "h:c0"], ["cp"]]]
+            p = make_program(children, [], ENVS[env])
+            p["label"] = f"children=({first},joiner) tail=none env={env}"
+            progs.append(p)
     # children spawning children / nested groups
     nested_children = [
         ("spawner", [["spawn", "G1", "gc"], ["wait", "g"]]),
